@@ -37,6 +37,8 @@ func c07Gen(c *vfCtx, emit func(c07Case)) {
 			{name, []vfCall{ok("snap", "", "v1"), ok("ssnap", "", "s1"), ok("ssnap", "", "s2")}},
 			{name, []vfCall{{API: "json", Val: `{"a":`}, ok("json", "", `{"a":1}`), ok("sjson", "", `[1]`)}}, // first call: invalid JSON, consumes slot 1
 			{name, []vfCall{ok("ssnap", "", "s1"), bad("ssnap", "", "CHANGED")}},
+			// matched values containing header-looking lines that shadow no addressed slot
+			{name, []vfCall{ok("snap", "", "ids:\n[TestQ - 7]\nend"), ok("snap", "", "[TestQ/sub - 12]"), ok("yaml", "", "- [TestQ - 7]\n")}},
 		}
 	}
 	names := []string{"TestA", "TestA/s", "TestAB", "FuzzA/seed#0", "Test1", "TestA/c_01"}
@@ -66,6 +68,7 @@ func c07Gen(c *vfCtx, emit func(c07Case)) {
 										continue
 									}
 									sc := c07Scenario(env, cnt, srt, ci, run, []shape2{{s1.name, s1.calls}, {s2.name, s2.calls}}, (si+sj+cnt)%2 == 0)
+									sc.DirSpell = []string{"", "slash", "", "dot", "", "dotdot", "", "double"}[(si+sj+ni+cnt)%8]
 									emit(c07Case{Sc: sc})
 								}
 							}
